@@ -656,6 +656,14 @@ def file_forms(text):
     yield 'trailing-space', text.replace('\n', '  \n')
     yield 'no-final-newline', text.rstrip('\n')
     yield 'form-feed-lines', text.replace('\n', '\n\x0c\n')
+    # lines of white space that is not "empty" (space/tab): several in a row, after an instruction description, mixed
+    yield 'form-feed-line-pairs', text.replace('\n', '\n\x0c\n\x0c\n')
+    yield 'vt-nbsp-line-runs', text.replace('\n', '\n\x0b\n\u00a0\n \x0c \n')
+    yield 'ws-lines-after-description', text.replace('\n', '\n`a description`\n\x0c\n\x0c\n', 1) \
+        if text.count('\n') > 2 else text
+    yield 'ws-line-inside-description-gap', '\n'.join(
+        ('`d`\n\x0c\n' + l) if (i and l and not l.startswith('[') and not l.startswith(' ') and i % 2) else l
+        for i, l in enumerate(text.split('\n')))
     yield 'nul-line', text + '\x00\n'
     yield 'indented', '\n'.join('   ' + l for l in text.split('\n'))
     # the file ends with a line that is neither empty (space/tab) nor an instruction: characters that str.isspace
